@@ -26,6 +26,7 @@ func checkC20(r *Run) propMeta {
 		r.Fatal("load: %v", err)
 	}
 	p := r.MustPkg("retriever")
+	retrieverPkg = p
 	cg := BuildCallGraph(r, func(path string) bool { return strings.HasSuffix(path, "/retriever") })
 	decls := FuncDecls(p)
 	checkLoadGates(r, p, cg, decls)
@@ -147,7 +148,7 @@ func checkLoadGates(r *Run, p *packages.Package, cg *CallGraph, decls map[string
 		}
 	}
 	// the verification pass switches checksum verification on for every fragment decode
-	if vf := decls["verifyCollectionFragments"]; vf != nil {
+	if vf := decls[roleName("verifyCollectionFragments")]; vf != nil {
 		n, okAll := 0, true
 		ast.Inspect(vf.Body, func(x ast.Node) bool {
 			call, ok := x.(*ast.CallExpr)
@@ -155,7 +156,8 @@ func checkLoadGates(r *Run, p *packages.Package, cg *CallGraph, decls map[string
 				return true
 			}
 			fn := calleeOf(p.TypesInfo, call)
-			if fn == nil || !(strings.HasPrefix(fn.Name(), "decode") && strings.HasSuffix(fn.Name(), "FragmentFile")) {
+			// a fragment decoder: handed the manifest's file entry, the verification switch and a record handler
+			if fn == nil || fn.Pkg() != p.Types || !isFragmentDecoder(fn) {
 				return true
 			}
 			n++
@@ -177,11 +179,60 @@ func checkLoadGates(r *Run, p *packages.Package, cg *CallGraph, decls map[string
 		}
 		// the verifying reader compares digest and size before handing records over: readVerifiedCompressedJSONLines calls verifyChecksum*
 	}
-	if rv := decls["readVerifiedCompressedJSONLines"]; rv != nil {
-		ok := stmtHasCall(rv.Body, func(c *ast.CallExpr) bool {
+	// the verifying reader: the function that streams records to a handler it is given and is handed the expected
+	// digest — it must call a checksum verifier (found by its shape: a func-typed parameter and a string digest
+	// parameter, reading through the decompressor; today readVerifiedCompressedJSONLines)
+	var rv *ast.FuncDecl
+	verifiers := checksumVerifiers(p)
+	takesHandler := func(fd *ast.FuncDecl) bool {
+		fn, _ := p.TypesInfo.Defs[fd.Name].(*types.Func)
+		if fn == nil {
+			return false
+		}
+		sig := fn.Type().(*types.Signature)
+		hasHandler, hasDigest := false, false
+		for i := 0; i < sig.Params().Len(); i++ {
+			switch t := sig.Params().At(i).Type().Underlying().(type) {
+			case *types.Signature:
+				hasHandler = true
+			case *types.Basic:
+				if t.Kind() == types.String && i > 0 {
+					hasDigest = true
+				}
+			}
+		}
+		return hasHandler && hasDigest
+	}
+	callsVerifier := func(fd *ast.FuncDecl) bool {
+		self, _ := p.TypesInfo.Defs[fd.Name].(*types.Func)
+		return stmtHasCall(fd.Body, func(c *ast.CallExpr) bool {
 			f := calleeOf(p.TypesInfo, c)
-			return f != nil && strings.HasPrefix(f.Name(), "verifyChecksum")
+			return f != nil && f.Origin() != self && verifiers[f.Origin()]
 		})
+	}
+	// the reader that is called with verification on: the function the fragment decoders call with the entry's SHA256
+	for _, cand := range declsWhere(p, takesHandler) {
+		passesDigest := false
+		for _, caller := range declsWhere(p, func(fd *ast.FuncDecl) bool { return true }) {
+			ast.Inspect(caller.Body, func(n ast.Node) bool {
+				if c, ok := n.(*ast.CallExpr); ok {
+					if f := calleeOf(p.TypesInfo, c); f != nil && p.TypesInfo.Defs[cand.Name] == types.Object(f.Origin()) {
+						for _, a := range c.Args {
+							if sel, ok := ast.Unparen(a).(*ast.SelectorExpr); ok && sel.Sel.Name == "SHA256" {
+								passesDigest = true
+							}
+						}
+					}
+				}
+				return true
+			})
+		}
+		if passesDigest {
+			rv = cand
+		}
+	}
+	if rv != nil {
+		ok := callsVerifier(rv)
 		if ok {
 			r.Pass("C20-R1-verify-before-mutate", "readVerifiedCompressedJSONLines:checksum", rv.Pos(), "the verifying reader checks digest and size")
 		} else {
@@ -233,7 +284,7 @@ func checkPathTaint(r *Run, p *packages.Package, cg *CallGraph) {
 		}
 	}
 	reach := cg.Reach(roots, nil)
-	oa := newOriginAnalysis(r, cg, modPath+"/retriever.sanitizeArchivePath")
+	oa := newOriginAnalysis(r, cg, modPath+"/retriever."+roleName("sanitizeArchivePath"))
 	tainted := []string{"field:Header.Name", "field:Header.Linkname", "field:Header.PAXRecords", "field:Header.Xattrs"}
 	for fn := range reach {
 		fd := cg.Decl[fn]
@@ -275,7 +326,7 @@ func checkPathTaint(r *Run, p *packages.Package, cg *CallGraph) {
 		})
 	}
 	// the sanitizer visibly rejects absolute paths, parent traversal and backslashes
-	if sp := FuncDecls(p)["sanitizeArchivePath"]; sp != nil {
+	if sp := FuncDecls(p)[roleName("sanitizeArchivePath")]; sp != nil {
 		txt := exprString(r.Fset, sp.Body)
 		for _, need := range []struct{ what, needle string }{
 			{"absolute paths", "IsAbs("}, {"backslash separators", `"\\"`}, {"empty names", `== ""`}} {
@@ -348,7 +399,7 @@ func checkPathTaint(r *Run, p *packages.Package, cg *CallGraph) {
 
 func checkRegularOnly(r *Run, p *packages.Package, decls map[string]*ast.FuncDecl) {
 	info := p.TypesInfo
-	fd := decls["unpackTarWithOptions"]
+	fd := decls[roleName("unpackTarWithOptions")]
 	if fd == nil {
 		r.Undecide("C20-R3: unpackTarWithOptions not found")
 		return
@@ -372,7 +423,7 @@ func checkRegularOnly(r *Run, p *packages.Package, decls map[string]*ast.FuncDec
 	// checks factored out into an error-returning helper are looked at where the helper is called
 	list := spliceGatedHelpers(p, loop.Body.List, 2)
 	idxExtract, _ := firstStmtCalling(p, list, func(fn *types.Func, c *ast.CallExpr) bool {
-		return fn != nil && strings.HasPrefix(fn.Name(), "unpackTarFile")
+		return fn != nil && fn.Pkg() == p.Types && fn.Name() == roleName("unpackTarFileTracked")
 	})
 	if idxExtract < 0 {
 		r.Undecide("C20-R3: extraction call not found in the loop")
@@ -478,7 +529,7 @@ func checkRegularOnly(r *Run, p *packages.Package, decls map[string]*ast.FuncDec
 	_ = findReject
 	sanIdx := -1
 	for _, g := range gatesOf(p, list) {
-		if g.Callee == "sanitizeArchivePath" && g.Returns {
+		if g.Callee == roleName("sanitizeArchivePath") && g.Returns {
 			sanIdx = g.Index
 		}
 	}
@@ -500,7 +551,7 @@ func checkRegularOnly(r *Run, p *packages.Package, decls map[string]*ast.FuncDec
 		}
 	}
 	// O_EXCL on the created file
-	if uf := decls["unpackTarFileTracked"]; uf != nil {
+	if uf := decls[roleName("unpackTarFileTracked")]; uf != nil {
 		excl := false
 		ast.Inspect(uf.Body, func(n ast.Node) bool {
 			if call, ok := n.(*ast.CallExpr); ok {
@@ -541,7 +592,7 @@ func checkRegularOnly(r *Run, p *packages.Package, decls map[string]*ast.FuncDec
 // checkStaging: exported entry points that can reach extraction without passing a staging function.
 func checkStaging(r *Run, p *packages.Package, cg *CallGraph) {
 	info := p.TypesInfo
-	extract := cg.Func(modPath + "/retriever.unpackTarFileTracked")
+	extract := cg.Func(modPath+"/retriever."+roleName("unpackTarFileTracked"))
 	if extract == nil {
 		r.Undecide("C20-R4: unpackTarFileTracked not found")
 		return
@@ -591,10 +642,10 @@ func checkStaging(r *Run, p *packages.Package, cg *CallGraph) {
 		}
 	}
 	// validation precedes the success return of the collection unpacker
-	if uc := FuncDecls(p)["unpackCollectionTarWithOptions"]; uc != nil {
+	if uc := FuncDecls(p)[roleName("unpackCollectionTarWithOptions")]; uc != nil {
 		ok := false
 		for _, g := range gatesOf(p, uc.Body.List) {
-			if g.Callee == "validateExtractedCollection" && g.Returns {
+			if g.Callee == roleName("validateExtractedCollection") && g.Returns {
 				ok = true
 			}
 		}
@@ -733,7 +784,7 @@ func checkEnvelope(r *Run, p *packages.Package, cg *CallGraph, decls map[string]
 	info := p.TypesInfo
 	// AAD binds all three parameters: each must flow into a Write on the buffer whose bytes are returned,
 	// directly or through a carrier filled by a Put* call
-	if aad := decls["archiveFrameAAD"]; aad != nil && aad.Type.Params != nil {
+	if aad := decls[roleName("archiveFrameAAD")]; aad != nil && aad.Type.Params != nil {
 		var buf types.Object
 		ast.Inspect(aad.Body, func(n ast.Node) bool {
 			if rs, ok := n.(*ast.ReturnStmt); ok && len(rs.Results) == 1 {
@@ -822,7 +873,7 @@ func checkEnvelope(r *Run, p *packages.Package, cg *CallGraph, decls map[string]
 		if g.Callee == "Open" && g.Returns {
 			if len(g.Call.Args) >= 1 {
 				if c, ok := ast.Unparen(g.Call.Args[0]).(*ast.CallExpr); ok {
-					if f := calleeOf(info, c); f != nil && f.Name() == "archiveFrameAAD" && len(c.Args) == 3 {
+					if f := calleeOf(info, c); f != nil && f.Name() == roleName("archiveFrameAAD") && len(c.Args) == 3 {
 						txt := exprString(r.Fset, c)
 						if strings.Contains(txt, "headerHash") && strings.Contains(txt, "frameIndex") && strings.Contains(txt, "frameType") {
 							openGated = true
@@ -927,7 +978,7 @@ func checkEnvelope(r *Run, p *packages.Package, cg *CallGraph, decls map[string]
 		drained := false
 		idxTar := -1
 		for _, g := range gatesOf(p, ue.Body.List) {
-			if g.Callee == "unpackCollectionTarWithOptions" && g.Returns {
+			if g.Callee == roleName("unpackCollectionTarWithOptions") && g.Returns {
 				idxTar = g.Index
 			}
 			if g.Full == "io.Copy" && g.Returns && idxTar >= 0 && g.Index > idxTar {
@@ -1336,7 +1387,7 @@ func checkStrictDocumentDecoding(r *Run, p *packages.Package, reach map[*types.F
 				}
 				if strict {
 					r.Pass(rule, construct, dc.Pos(), "the document is decoded and the rest of the input is required to be empty")
-				} else if reason, ok := r.InTable(tbl, "c20_decoding_exempt", funcDeclName(fd)); ok {
+				} else if reason, ok := r.InTableAt(tbl, "c20_decoding_exempt", funcDeclName(fd), info, fd, "decode-once"); ok {
 					r.Pass(rule, construct, dc.Pos(), "table: %s", reason)
 				} else {
 					r.Fail(rule, construct, dc.Pos(), "%s decodes one JSON value with Decoder.Decode and never checks that nothing follows it (no second Decode == io.EOF, no More()): bytes appended to the file are ignored, so an extended or concatenated manifest is accepted as intact", funcDeclName(fd))
@@ -1436,4 +1487,26 @@ func envelopeEOFGate(p *packages.Package, frameReader *ast.FuncDecl) *ast.FuncDe
 		return true
 	})
 	return gate
+}
+
+// isFragmentDecoder: a function with a FileManifest parameter, a bool parameter (verify integrity) and a func-typed
+// parameter (the record handler), returning (count, error).
+func isFragmentDecoder(fn *types.Func) bool {
+	sig := fn.Type().(*types.Signature)
+	hasEntry, hasBool, hasFunc := false, false, false
+	for i := 0; i < sig.Params().Len(); i++ {
+		t := sig.Params().At(i).Type()
+		if namedName(t) == "FileManifest" {
+			hasEntry = true
+		}
+		switch u := t.Underlying().(type) {
+		case *types.Basic:
+			if u.Kind() == types.Bool {
+				hasBool = true
+			}
+		case *types.Signature:
+			hasFunc = true
+		}
+	}
+	return hasEntry && hasBool && hasFunc && sig.Results().Len() == 2
 }
